@@ -119,5 +119,29 @@ func SecurityCases(seed int64, thorough bool) []Case {
 			}
 		}
 	}
+	for _, cors := range []bool{true, false} {
+		// OPTIONS operations the spec declares itself are operations like any other:
+		// secured by their effective requirement, with or without CORS support
+		d := NewDoc("sec-options")
+		d.Comp("securitySchemes", "A_bearer", CloneM(secSchemeDefs["bearer"]))
+		d.Comp("securitySchemes", "B_keyhdr", CloneM(secSchemeDefs["keyhdr"]))
+		d.Root["security"] = L{M{"A_bearer": L{}}}
+		ok := func(sec any) M {
+			op := M{"responses": M{"200": M{"description": "ok"}, "default": M{"description": "e"}}}
+			if sec != nil {
+				op["security"] = sec
+			}
+			return op
+		}
+		d.Op("/r", "get", ok(nil))
+		d.Op("/r", "options", ok(nil))
+		d.Op("/s", "options", ok(L{M{"B_keyhdr": L{}}}))
+		d.Op("/s", "post", ok(L{}))
+		d.Op("/t", "options", ok(L{}))
+		d.Op("/t/{id}", "options", ok(L{M{"A_bearer": L{}}, M{"B_keyhdr": L{}}}))
+		d.PathItem("/t/{id}")["parameters"] = L{ParamNode("id", "path", true, Prim("string", ""))}
+		id := fmt.Sprintf("sec/fixed-declared-options/cors=%v", cors)
+		out = append(out, Case{ID: id, Family: "security", Spec: d.Root, Flags: Flags{Cors: cors}, Safe: true, Label: map[string]string{"set": id}})
+	}
 	return out
 }
